@@ -50,3 +50,20 @@ let tbool b = Id (if b then "true" else "false")
 let tl l = List l
 let tints l = List (List.map ti l)
 let timat m = List (List.map tints m)
+
+(* rationals: canonical (reduced, positive denominator) on input, as BigRational::new does *)
+let qc_of_zz (a : Z.t) (b : Z.t) : QArith_base.coq_Q =
+  let g = Z.gcd a b in
+  let a, b = if Z.sign b < 0 then Z.neg (Z.div a g), Z.neg (Z.div b g) else Z.div a g, Z.div b g in
+  { QArith_base.coq_Qnum = coqz_of_z a; QArith_base.coq_Qden = pos_of_z b }
+let rat_ = function
+  | Int z -> qc_of_zz z Z.one
+  | Rat (a, b) -> qc_of_zz a b
+  | t -> bad "rational" t
+let rats t = List.map rat_ (list_ t)
+let rmat t = List.map rats (list_ t)
+let tr (q : QArith_base.coq_Q) = Rat (z_of_coqz q.QArith_base.coq_Qnum, z_of_pos q.QArith_base.coq_Qden)
+let trats l = List (List.map tr l)
+let trmat m = List (List.map trats m)
+let mode_ = function Id "wrapping" -> Base.Wrapping | _ -> Base.Checked
+let arg a i = List.nth a i
